@@ -491,7 +491,8 @@ def gen_term(tape, sort, depth, ctx):
             # a quantifier over a declared sort: the sort occurs in the binders (and maybe nowhere else)
             s = tape.choice(ctx.usort_list(), "uq.sort")
             # (pySMT's bound variables are symbols of the environment: one name per sort)
-            na, nb = "qa_%s" % s[1], "qb_%s" % s[1]
+            # (one of the two names needs |quoting| in SMT-LIB)
+            na, nb = "qa_%s" % s[1], "q b_%s" % s[1]
             qa, qb = ["sym", na, s], ["sym", nb, s]
             body = tape.choice([["not", ["=", qa, qb]], ["=", qa, qb], ["or", ["=", qa, qb], gen_term(tape, BOOL, 0, ctx)]], "uq.body")
             return [tape.choice(QUANT, "uq.q"), [[na, s], [nb, s]], body]
